@@ -94,6 +94,9 @@ def gen_elems(draw, etype, n):
     if etype == 'dict':
         return [['dict', [[k, ['i', draw(st.integers(0, 9))]] for k in
                           draw(st.lists(st.sampled_from(['a', 'b', 'c']), max_size=3, unique=True))]] for _ in range(n)]
+    if etype == 'strs':       # strings are iterables of their characters like any other element, mixed with lists of strings
+        return [['s', draw(st.sampled_from(['', 'a', 'bc', 'def']))] if draw(st.integers(0, 2)) else
+                ['list', [['s', draw(st.sampled_from(['x', 'yz']))] for _ in range(draw(st.integers(0, 2)))]] for _ in range(n)]
     if etype == 'nested':     # lists of lists of lists (for levels >= 2)
         def nest(d):
             if d == 0:
@@ -107,6 +110,7 @@ COMPAT = {
     'int': (['int', 'float', 'count-int'], ['iadd', 'add', 'mul', 'rec', 'lastodd']),
     'float': (['float', 'int', 'count-float'], ['iadd', 'add', 'mul', 'rec']),
     'str': (['str'], ['iadd', 'add', 'rec']),
+    'strs': (['list'], ['iadd']),
     'list': (['list', 'count-list'], ['iadd', 'add', 'rec']),
     'tuple': (['tuple'], ['iadd', 'add', 'rec']),
     'dict': (['dict', 'odict', 'count-dict'], ['update']),
@@ -119,7 +123,7 @@ def gen(draw):
     if kind in ('merge', 'merge_fn'):
         etype = 'dict'
     elif kind in ('flatten', 'flatten-lazy'):
-        etype = draw(st.sampled_from(['list', 'tuple', 'nested', 'list']))
+        etype = draw(st.sampled_from(['list', 'tuple', 'nested', 'list', 'strs']))
     elif kind == 'flatten_fn':
         etype = draw(st.sampled_from(['nested', 'nested', 'list']))
     elif kind == 'fold-union':
